@@ -38,7 +38,7 @@ PROPS = {
         "timeout": {"quick": 300, "thorough": 3000},
     },
     "C19": {
-        "suites": ["c19"],
+        "suites": ["c19", "c19conc"],
         "assumptions": COMMON_ASSUME + [
             "the children do not panic, do not call back into the multi reporter and hand out one fresh handle per allocation (recording children; handles are numbered by allocation order per child)",
             "`for … range` over a slice visits the elements in index order, once each (Go spec); float64 / int64 / string / map arguments are passed unchanged by an interface method call",
@@ -74,7 +74,7 @@ PROPS = {
         ],
     },
     "C18": {
-        "suites": ["c18"],
+        "suites": ["c18", "c18conc"],
         "assumptions": [
             "the harness observes the StatsD reporter only through a recording fake of the client interface statsd.Statter (github.com/cactus/go-statsd-client/v5): what the real client then puts on the wire is outside this property",
             "fmt.Sprintf(\"%.Nf\") and time.Duration.String are re-implemented exactly in Lean on integers (correctly rounded half-even decimal of the float64 bit pattern; Go's fmtFrac/fmtInt algorithm) and compared byte for byte with the Go runtime's own output on every run; the theorems are about the re-implementation",
@@ -110,7 +110,7 @@ PROPS = {
         "assumptions": COMMON_ASSUME + [
             "'the reporting goroutine has ended' is observed by a goroutine dump after Close returned",
             "a second Close call that overlaps the first returns nil before the first has finished (limitation D5b, theorem concurrent_close_returns_early); the barrier is claimed for the winning caller",
-            "Model.RootClose visits the cells of a pass in index order; suite c08lock arranges that order in the real registry (subscope i in shard i, root without metrics); arbitrary map orders are exercised by c08sched and judged by its oracle",
+            "the order in which a pass visits the registered scopes (Go map iteration) is an input of Model.RootClose: the theorems hold for every order, the lock-step suite observes the real order of every pass and hands it to the model; the root scope itself carries no metrics in c08lock (it is registered in every shard and would be visited once per shard)",
         ],
         "trusted_base": ["cooperative scheduler adopting the real report-loop goroutine at its first hook; free-running stress with a 20-200us ticker"],
         "timeout": {"quick": 400, "thorough": 3600},
